@@ -1278,6 +1278,17 @@ impl TransactionalMemory {
         Ok(state.latest_slot().transaction_id)
     }
 
+    // The id of the last committed transaction together with its data root, read under one
+    // acquisition of the state lock. Two separate reads could pair the id of one commit with the
+    // root of the next one, published in between.
+    pub(crate) fn get_last_committed_transaction_id_and_data_root(
+        &self,
+    ) -> Result<(TransactionId, Option<BtreeHeader>)> {
+        let state = self.state.lock()?;
+        let slot = state.latest_slot();
+        Ok((slot.transaction_id, slot.user_root))
+    }
+
     pub(crate) fn get_last_durable_transaction_id(&self) -> Result<TransactionId> {
         let state = self.state.lock()?;
         Ok(state.header.primary_slot().transaction_id)
